@@ -213,7 +213,8 @@ class Body:
             p = c.get('path', '')
             if name is not None and c.get('name') != name:
                 continue
-            if pat is not None and not (re.search(pat, p) or re.search(pat, c.get('resolved', '')) or re.search(pat, c.get('full', ''))):
+            if pat is not None and not (re.search(pat, p) or re.search(pat, short(p)) or re.search(pat, c.get('resolved', ''))
+                                        or re.search(pat, short(c.get('resolved', ''))) or re.search(pat, c.get('full', ''))):
                 continue
             out.append((i, t))
         return out
@@ -370,6 +371,16 @@ class Body:
         if all(x == ts[0] for x in ts) and ts[0][0] != 'call':
             return ts[0]
         return ('t', l)
+
+    def def_term(self, l):
+        """Term of the single whole definition of local l (names of other locals preserved), or None."""
+        ds = self.defs().get(l, [])
+        if len(ds) != 1 or self.defs().get(('proj', l)):
+            return None
+        bi, si, kind, obj = ds[0]
+        if kind == 'call':
+            return self.call_term(bi, obj)
+        return self.rvalue_term(obj['r'], 0, bi)
 
     def call_term(self, bi, t, depth=0, expand=False, noblock=False):
         c = t['callee']
